@@ -90,6 +90,19 @@ func VerifC18_nonfatal_fair() {
 	vReach("end")
 }
 
+// Rate with uninterpreted float arithmetic: holds for ANY value of the float
+// expressions, so a pass needs no float reasoning at all; a counterexample here is
+// only a candidate and is refined by VerifC18_nonfatal_rate_exact.
+// gosym: mode=bv fp=uf
+func VerifC18_nonfatal_rate_uf() {
+	sorted, shuffled := c18Priorities(vParam("n", 2))
+	q := vNondetUint("q")
+	got := IsNonFatalConfig(shuffled, divider.Rate, q)
+	want := c18Definition(sorted, divider.Rate, q)
+	vAssert(got == want, "IsNonFatalConfig(Rate) agrees with the subset definition")
+	vReach("end")
+}
+
 // gosym: mode=bv fp=exact solver=cvc5
 func VerifC18_nonfatal_rate_exact() {
 	list := c18Catalog(vParam("list", 0))
